@@ -2,7 +2,7 @@ SPECIFICATION MCSpec
 CONSTANTS FailFastOn = "realerr"
  FlattenPrefer = "real"
  SkipCancelled = TRUE
- CancelDrains = FALSE
+ CancelDrains = "no"
  ExtraWorkers = 0
  WorkersMC = {2}
  BufsMC = {1}
